@@ -74,6 +74,15 @@ CHECKS = {
               'until values and gradients are stationary to 1e-10. Hooks count SumProduct.backward, J, J_log and the duplicated-external-node '
               'special case so that an unreached mechanism makes the run inconclusive.'),
         design_ref='DESIGN.md §4 C03'),
+    'C04': dict(
+        technique='boundary monitor on viterbi/derive with independent well-formedness checker and exact max-plus Kleene oracle (runtime monitoring)',
+        text=('Runtime monitoring: viterbi is called on generated grammars of every recursion class (incl. cycles of weight exactly one that tie with '
+              'the optimum, rules whose nodes are all external, edgeless internal/external nodes, size-1 domains, start arity > 0) for every start '
+              'assignment with a finite optimum. Each returned derivation is judged by an independent checker (rule belongs to the rewritten '
+              'nonterminal, one child per nonterminal edge, every node has an in-domain value, externals agree with the parent), its weight is '
+              'recomputed from the tree and from derive() with the spec\'s own tables and compared with the exact max-plus optimum obtained by dense '
+              'Kleene iteration and with the Viterbi-semiring sum_product. A hook counts einsum calls with 0, 1, >=2 summed-out indices.'),
+        design_ref='DESIGN.md §4 C04'),
 }
 
 NOT_BUILT = {}
